@@ -95,6 +95,8 @@ type queriesRec struct {
 	ReqProduces []string          `json:"reqProduces"`
 	ReqSchemes  []string          `json:"reqSchemes"`
 	Params      []qParams         `json:"params"`
+	// After: the same analyzer queried again after it was handed to Flatten (validated as a record of its own, tid + "~f")
+	After *queriesRec `json:"after,omitempty"`
 }
 
 func strs(pj *Projector, xs []string) []string {
@@ -117,11 +119,33 @@ func opQueries(req *Req) (any, map[string]string, error) {
 	if err != nil {
 		return nil, nil, fmt.Errorf("load: %w", err)
 	}
-	rec := &queriesRec{Tid: req.ID, GN: map[string]string{}, Ops: []qOp{}, OpFor: []qOpFor{}, ByName: []qByName{}, IDs: []string{}, MethodPaths: []string{},
+	an := analysis.New(sw)
+	rec, err := collectQueries(req.ID, pj, names, an, sw)
+	if err != nil {
+		return nil, nil, err
+	}
+	var args analyzeArgs
+	if len(req.Args) > 0 {
+		json.Unmarshal(req.Args, &args)
+	}
+	if args.ThenFlatten {
+		if ferr := analysis.Flatten(analysis.FlattenOpts{Spec: an, BasePath: req.Files["root"], Minimal: !args.Full, RemoveUnused: args.Full}); ferr == nil {
+			if aft, e2 := collectQueries(req.ID+"~f", pj, names, an, sw); e2 == nil {
+				rec.After = aft
+			}
+		}
+	}
+	return rec, names.ToConcrete, nil
+}
+
+// collectQueries asks the query layer of an analyzed spec everything the properties speak about, for the document as it stands.
+func collectQueries(tid string, pj *Projector, names *NameTable, an *analysis.Spec, sw *spec.Swagger) (*queriesRec, error) {
+	var err error
+	rec := &queriesRec{Tid: tid, GN: map[string]string{}, Ops: []qOp{}, OpFor: []qOpFor{}, ByName: []qByName{}, IDs: []string{}, MethodPaths: []string{},
 		Paths: []string{}, PerOp: []qPerOp{}, Params: []qParams{}}
 	rec.Doc, _, err = projectSwagger(pj, sw)
 	if err != nil {
-		return nil, nil, err
+		return nil, err
 	}
 	rec.XKeys = pj.XKeys(rec.Doc)
 	rec.Doc.Walk(nil, func(_ []string, n *Node) {
@@ -129,7 +153,6 @@ func opQueries(req *Req) (any, map[string]string, error) {
 			rec.GN[nm] = swag.ToGoName(names.Conc(nm))
 		}
 	})
-	an := analysis.New(sw)
 	pathTok := func(p string) string { return names.Abs(p) }
 	mpTok := func(s string) string { // "METHOD /path" -> "METHOD <token>"
 		if i := strings.Index(s, " "); i > 0 {
@@ -342,7 +365,7 @@ func opQueries(req *Req) (any, map[string]string, error) {
 			})
 		}
 	}
-	return rec, names.ToConcrete, nil
+	return rec, nil
 }
 
 // genQueryDoc: documents for the query layer (operations, media types, security, parameters by value and by $ref).
@@ -590,13 +613,29 @@ func checkQueries(prop, tier string, seed int64) int {
 	}
 	reqs := make([]*Req, len(cases))
 	for i, c := range cases {
-		reqs[i] = c.Req("queries", nil)
+		if c.Source == "fixture" {
+			reqs[i] = c.Req("queries", nil)
+			continue
+		}
+		// the analyzer is queried again after a Flatten (alternately Minimal and full+RemoveUnused) of its document
+		reqs[i] = c.Req("queries", analyzeArgs{ThenFlatten: true, Full: i%2 == 1})
 	}
 	pool := &Pool{Exe: selfExe(), N: nWorkers(), Timeout: 20 * time.Second}
 	resps := pool.Run(reqs)
 	recs := []json.RawMessage{}
 	for _, r := range resps {
 		if r.Err == "" && r.Crash == "" && r.Rec != nil {
+			var full queriesRec
+			if json.Unmarshal(r.Rec, &full) == nil && full.After != nil {
+				aft := full.After
+				full.After = nil
+				if b1, e1 := json.Marshal(&full); e1 == nil {
+					if b2, e2 := json.Marshal(aft); e2 == nil {
+						recs = append(recs, b1, b2)
+						continue
+					}
+				}
+			}
 			recs = append(recs, r.Rec)
 		}
 	}
@@ -643,14 +682,23 @@ func checkQueries(prop, tier string, seed int64) int {
 				rep.Samples = append(rep.Samples, map[string]any{"tid": c.Tid, "source": c.Source, "note": c.Note, "operations": st[0], "parameter_queries": st[1], "queries_over_bad_refs": st[2]})
 			}
 		}
-		if v[prop] {
+		tidBad, pre := c.Tid, ""
+		if v2, has := tl.Verdicts[c.Tid+"~f"]; has {
+			rep.Evaluations++
+			if v[prop] && !v2[prop] {
+				tidBad, pre = c.Tid+"~f", "after-flatten:" // right after New, not any more after Flatten
+			} else if v2[prop] {
+				rep.TracesOK++
+			}
+		}
+		if v[prop] && tidBad == c.Tid {
 			rep.TracesOK++
 			continue
 		}
-		sig, what := prop+":unclassified", "verdict false"
-		if ds := diags[c.Tid]; len(ds) > 0 {
+		sig, what := prop+":"+pre+"unclassified", "verdict false"
+		if ds := diags[tidBad]; len(ds) > 0 {
 			_, _, clause, shape := diagShape(ds[0])
-			sig = prop + ":" + clause + ":" + shape
+			sig = prop + ":" + pre + clause + ":" + shape
 			what = ds[0]
 			if len(what) > 500 {
 				what = what[:500]
